@@ -64,16 +64,16 @@ class Dist(object):
         return self.t[k][b]
 
     def mesh(self, a, b):
-        """distance in the mesh without wrap-around: search the bounding box of a and b enlarged by one
-        (a finite mesh that contains both; the implementation is not told its size)"""
+        """distance in the mesh without wrap-around: breadth-first search from a on a finite square mesh
+        that contains the bounding box of a and b with a margin (the implementation is not told any size)"""
         d = (b[0] - a[0], b[1] - a[1])
-        box = (min(0, d[0]) - 1, min(0, d[1]) - 1, max(0, d[0]) + 2, max(0, d[1]) + 2)
-        k = box
-        if k not in self.m:
-            if len(self.m) > 3000:
-                self.m = {}
-            self.m[k] = bfs(mesh_neigh(*box), (0, 0))
-        return self.m[k][d]
+        m = max(abs(d[0]), abs(d[1]))
+        R = 4
+        while R < m + 1:
+            R *= 2
+        if R not in self.m:
+            self.m[R] = bfs(mesh_neigh(-R, -R, R + 1, R + 1), (0, 0))
+        return self.m[R][d]
 
 
 def to2d(v):
@@ -230,7 +230,10 @@ def torus_cases(rng, w, h, a, b, idx, styles):
     s, d = rep(rng, a), rep(rng, b)
     out = [dict(fn="torus_len", s=s, d=d, w=w, h=h)]
     for st in styles:
-        ks, t = script(rng, st, idx)
+        i = idx
+        if st.startswith("prefer") and st != "prefer":      # "prefer0" .. "prefer3": that approach first
+            i, st = int(st[6:]) + 4 * idx, "prefer"
+        ks, t = script(rng, st, i)
         out.append(dict(fn="torus_path", s=rep(rng, a), d=rep(rng, b), w=w, h=h, ks=ks, t=t, a=list(a), b=list(b)))
     return out
 
@@ -251,11 +254,19 @@ def gen_phase1(chk):
             for a in chips:
                 for b in chips:
                     idx += 1
-                    if quick or (w <= 6 and h <= 6):
+                    if quick:
                         styles = ["random", "prefer"] + (["ties"] if idx % 5 == 0 else [])
+                    elif w <= 6 and h <= 6:     # every tie-break outcome: each approach preferred in turn
+                        styles = ["random", "prefer0", "prefer1", "prefer2", "prefer3", "ties"]
                     else:
-                        styles = ["prefer"] if idx % 3 else ["random"]
-                    cases += torus_cases(rng, w, h, a, b, idx, styles)
+                        styles = [] if idx % 3 else ["prefer" if idx % 2 else "random"]
+                    new = torus_cases(rng, w, h, a, b, idx, styles)
+                    if (w > 7 or h > 7) and idx % 16:
+                        # beyond 7 x 7 every pair is still run and decided by the BFS oracle, but only one
+                        # pair in 16 is also evaluated in the Coq model (volume)
+                        for c in new:
+                            c["nomodel"] = True
+                    cases += new
                     if w <= 4 and h <= 4 or (not quick and w <= 6 and h <= 6):
                         s, d = rep(rng, a), rep(rng, b)
                         cases.append(dict(fn="mesh_len", s=s, d=d))
@@ -495,7 +506,7 @@ def run(chk, args):
     keep = [i for i, o in enumerate(outs) if o[0] != "skipped"]
     cases, outs = [cases[i] for i in keep], [outs[i] for i in keep]
     # oracle on every implementation output
-    reported = set()
+    nrep = {}
     for c, o in zip(cases, outs):
         fn = c["fn"]
         chk.count("fn:" + fn)
@@ -506,14 +517,14 @@ def run(chk, args):
             chk.count("torus:thin(w or h <= 2)" if min(c["w"], c["h"]) <= 2 else "torus:w,h >= 3")
             if fn == "torus_path" and o[0] == "ok":
                 chk.count("torus_path:spiral-draw" if o[1]["requests"] else "torus_path:no-spiral-draw")
-        chk.note_case({k: c[k] for k in c if k not in ("a", "b")}, nontrivial(c, o))
+        chk.note_case({k: c[k] for k in c if k not in ("a", "b", "nomodel")}, nontrivial(c, o))
         why = oracle(c, o, D)
         if c.get("regression") == "float-key" and why:
             why = ("torus-path-float-key-rounds-up", why[1])
-        if why and (why[0], fn) not in reported:
-            if len([1 for k, f in reported if k == why[0]]) < 3:
+        if why:
+            nrep[why[0]] = nrep.get(why[0], 0) + 1
+            if nrep[why[0]] <= 3:
                 chk.fail_input(why[0], why[1], dict(case=c, observed=o))
-            reported.add((why[0], fn))
     for fn in ("torus_path", "ldf", "hex"):
         for c, o in zip(cases, outs):
             if c["fn"] == fn and nontrivial(c, o):
@@ -524,7 +535,8 @@ def run(chk, args):
         try:
             by_fn = {}
             for i, c in enumerate(cases):
-                by_fn.setdefault(c["fn"], []).append(i)
+                if not c.get("nomodel"):
+                    by_fn.setdefault(c["fn"], []).append(i)
             exprs, groups = [], []
             for fn, idxs in sorted(by_fn.items()):
                 step = {"ldf": 25, "hex": 2, "links": 1, "torus_path": 60}.get(fn, 120)
@@ -547,7 +559,7 @@ def run(chk, args):
                                          dict(case=cases[i], observed=outs[i]))
             if not bad:
                 chk.oblige("correspondence:geometry (%d cases: lengths, vectors, randint requests, walks, link tables, "
-                           "hexagon lists equal)" % len(cases), True)
+                           "hexagon lists equal)" % chk.traces_validated, True)
         except RuntimeError as e:
             chk.oblige("correspondence:model-evaluates", False, str(e))
     chk.coverage["exhaustive"] = False
